@@ -5,6 +5,8 @@ package main
 // parent and workers build the identical list.
 
 import (
+	"runtime"
+	"runtime/debug"
 	"bufio"
 	"encoding/json"
 	"fmt"
@@ -112,6 +114,15 @@ func genWorker(prop, tier string) {
 			}
 			r := cl.Run(i)
 			atomic.AddInt64(&genProgress, 1)
+			// a case may legitimately have allocated hundreds of megabytes (SETBIT k 2147483648 1): give them back
+			// before the next case, the worker's address space is limited
+			var ms runtime.MemStats
+			if i%64 == 0 {
+				runtime.ReadMemStats(&ms)
+			}
+			if ms.HeapIdle-ms.HeapReleased > 1<<30 || ms.HeapAlloc > 2<<30 {
+				debug.FreeOSMemory()
+			}
 			out.Units += r.Units
 			switch r.Status {
 			case "ok":
